@@ -1340,17 +1340,17 @@ theorem incsOf_cons (i : Nat) (a : Acc) (accs : List Acc) :
     incsOf i (a :: accs) = (if a = .inc i then 1 else 0) + incsOf i accs := by
   unfold incsOf
   by_cases h : a = .inc i
-  · subst h; simp [List.filter_cons]; omega
+  · subst h; simp; omega
   · have : (a == Acc.inc i) = false := by simpa using h
-    simp [List.filter_cons, this, h]
+    simp [this, h]
 
 theorem decsOf_cons (i : Nat) (a : Acc) (accs : List Acc) :
     decsOf i (a :: accs) = (if a = .dec i then 1 else 0) + decsOf i accs := by
   unfold decsOf
   by_cases h : a = .dec i
-  · subst h; simp [List.filter_cons]; omega
+  · subst h; simp; omega
   · have : (a == Acc.dec i) = false := by simpa using h
-    simp [List.filter_cons, this, h]
+    simp [this, h]
 
 /-- `no_lost_update`: after **any** sequence of atomic increments/decrements of live cells in which
 no count is driven below zero, every count is `initial + #increments − #decrements`, and nothing
